@@ -607,6 +607,18 @@ func (ev *Evaluator) evalBinary(x *ast.BinaryExpr, env *Env) Value {
 			return Float{a.V - b.V}
 		case token.MUL:
 			return Float{a.V * b.V}
+		case token.EQL:
+			return Bool{a.V == b.V}
+		case token.NEQ:
+			return Bool{a.V != b.V}
+		case token.LSS:
+			return Bool{a.V < b.V}
+		case token.LEQ:
+			return Bool{a.V <= b.V}
+		case token.GTR:
+			return Bool{a.V > b.V}
+		case token.GEQ:
+			return Bool{a.V >= b.V}
 		}
 	}
 	return ev.unk(x, "binary "+x.Op.String()+" on non-constant operands")
